@@ -87,6 +87,16 @@ func init() {
 		r.URL.RawPath = strings.TrimPrefix(r.URL.RawPath, "/__verif")
 		ctx := appengine.WithAPICallFunc(withOAuth(appengine.NewContext(r), id), fake.call)
 		switch service { // same dispatch as the app's init(), which switches on appengine.ModuleName
+		case "blob": // driver-only: store the body as a blob and read it back
+			data, _ := io.ReadAll(r.Body)
+			back, inl, parts, err := store.VerifBlobRoundTrip(ctx, data, "verif-blob-"+requestID)
+			if err != nil {
+				http.Error(w, err.Error(), 500)
+				return
+			}
+			w.Header().Set("X-Inlined", strconv.Itoa(inl))
+			w.Header().Set("X-Parts", strconv.Itoa(len(parts)))
+			w.Write(back)
 		case "agent":
 			handleAgentRequest(ctx, s, w, r)
 		case "api":
